@@ -41,11 +41,19 @@ def gen_mclin_case(r, nsteps, ctx=None, forms=None):
         ys[1] = (ys[0] + 1) % k
     cn, cs = r.choice(C_CHOICES)
     en, es = r.choice(EPS_CHOICES)
+    # sum-constrained formulations: half of the cases are LONG histories with strong regularisation (small C), so that examples reach
+    # sum alpha == C exactly and are later over-satisfied because other examples moved w (the branch of calcGradient for the simplex face
+    # with only negative gradients; seeded change C16-mclinear-cs-kkt-on-simplex-face)
+    long_face = F in ("CS", "ATM", "ADM") and k >= 3 and r.chance(1, 2)
+    if long_face:
+        cn, cs = r.choice([(1, 3), (1, 4), (1, 5), (3, 6), (1, 2)])
+        en, es = r.choice([(1, 10), (1, 20), (3, 12)])
+        boundary.append("long-small-C")
     if (cn, cs) in ((1, 6), (64, 0)): boundary.append("C-extreme")
     ops = ["mldata %d %d %d %s" % (n, d, k, " ".join(map(str, [v for p in pts for v in p] + ys))),
            f"mlnew {F} {cn} {cs} {en} {es}"]
-    for _ in range(r.range(1, nsteps)):
-        x = r.below(10)
+    for _ in range(r.range(8, 24) if long_face else r.range(1, nsteps)):
+        x = 6 if (long_face and r.chance(3, 4)) else r.below(10)
         if x < 3:
             ops.append(f"mlstep {r.below(n)}")
         elif x < 5:                                         # repeated index
